@@ -27,6 +27,12 @@ def sub_ctx(ctx, name):
     return c
 
 
+def dev_subset(families):
+    """Developer knob (mutation trials): VERIF_TRACKER_FAMILIES=issue,meta restricts the instances."""
+    want = os.environ.get("VERIF_TRACKER_FAMILIES")
+    return [f for f in families if f in want.split(",")] if want else families
+
+
 def run_families(ctx, families, tier, workers, timeout):
     """TLC on every family concurrently. Returns {family: TlcResult}."""
     def one(fam):
@@ -36,9 +42,14 @@ def run_families(ctx, families, tier, workers, timeout):
                     timeout=timeout, coverage=False, env=env, heap="6g" if tier == "thorough" else "4g",
                     label=f"{fam}: exhaustive over the bounded instance; C07_Issue C07_Patch C07_PatchExtra C08_Step "
                           f"RejectedNoEffect Frame on every transition, TypeOK IssueWF PatchWF C08_Merged on every state")
+        # keep memory bounded: the emitted cases go to a file, the raw output is dropped
+        res.ncases = len(res.cases)
+        res.cases_path = ctx.write_cases(res.cases, f"cases-{fam}.ndjson") if res.cases else None
+        res.cases = None
+        res.out = res.out[-4000:]
         return fam, res, c.cov
     out = {}
-    with ThreadPoolExecutor(max_workers=3 if tier == "thorough" else len(families)) as ex:
+    with ThreadPoolExecutor(max_workers=2 if tier == "thorough" else len(families)) as ex:
         for fam, res, cov in ex.map(one, families):
             out[fam] = res
             ctx.cov["states"] += res.distinct
@@ -113,11 +124,9 @@ def classify(ctx, recs, cfg, prop_names, label):
 
 def replay_family(ctx, engine, fam, res, threads, stats):
     """Replay all cases of a family; returns (mismatch records, summary)."""
-    if not res.cases:
+    if not res.cases_path:
         raise vlib.ToolError(f"{fam}: TLC emitted no cases")
-    cases = ctx.write_cases(res.cases, f"cases-{fam}.ndjson")
-    res.cases = None
-    res.out = ""
+    cases = res.cases_path
     out = os.path.join(ctx.work, f"verdicts-{fam}.ndjson")
     ctx.engine(engine, ["--mode", "replay", "--cases", cases, "--out", out, "--threads", threads], timeout=3000)
     os.remove(cases)
